@@ -24,7 +24,7 @@ EXPLANATION = (
     "(maxcol,) of the box width (the rows shown are the items' renderings at that width); (11) SIB: render() compares the rows calculate_visible reported with the "
     "rows actually rendered for all three groups (above, focus, below); (12) SIB: the two bundled walkers step positions with identical next_position / "
     "prev_position / positions; (13) FOCUS-FWD and OPTCALL restricted to listbox.py (the focus flag reaches the focus item; optional child methods are called "
-    "under hasattr); (14) BOUND: the walker clamps its focus index to len - 1 under `index >= len` (a focus left one past the end makes the ListBox render blank although items remain)."
+    "under hasattr); (14) BOUND: the walker clamps its focus index to len - 1 under `index >= len` (a focus left one past the end makes the ListBox render blank although items remain); (15) SENTINEL: walker results are compared with None by identity (an empty container item is falsy but is a widget)."
 )
 NOT_DECIDED = (
     "That the window is gap-free and contains the focus for every history (arithmetic over offset_rows / inset_fraction / item heights), snapping and paging "
@@ -193,6 +193,7 @@ def run(ctx: Ctx):
         _as(c08.rule_listbox_empty_setter(ctx), "C07.4"),
         _as(c08.rule_integral_position(ctx), "C07.5"),
         _as(c08.rule_index_clamp(ctx), "C07.14"),
+        c08.rule_widget_none_test(ctx, "C07.15"),
         prog.run_progress(p, "C07.6", loops, floor=6, description="every while loop of listbox.py assigns a local its test reads on every way back to the test"),
         noop.run_noop(p, "C07.7", ["urwid.widget.listbox"], floor=8),
         rule_mouse_focus(ctx),
